@@ -1,6 +1,7 @@
 package variants
 
 import (
+	"reflect"
 	"time"
 
 	cconv "github.com/pip-services3-gox/pip-services3-commons-gox/convert"
@@ -466,7 +467,18 @@ func (c *Variant) Equals(obj *Variant) bool {
 	if value1 == nil || value2 == nil {
 		return value1 == value2
 	}
-	return c.typ == obj.typ && value1 == value2
+	return c.typ == obj.typ && equalValues(value1, value2)
+}
+
+// equalValues compares two payloads with ==. Objects of a type that cannot be compared with ==
+// (maps, slices, functions) are equal when they are deeply equal.
+func equalValues(value1 any, value2 any) (result bool) {
+	defer func() {
+		if recover() != nil {
+			result = reflect.DeepEqual(value1, value2)
+		}
+	}()
+	return value1 == value2
 }
 
 // Clone the variant value
